@@ -85,6 +85,10 @@ type ACase struct {
 	TZ    string   `json:"tz,omitempty"`
 	Fmt   string   `json:"fmt,omitempty"`
 	Hash  bool     `json:"hash,omitempty"`
+	Tl    string   `json:"tl,omitempty"`
+	// D
+	Pt1 int `json:"pt1,omitempty"`
+	Pt2 int `json:"pt2,omitempty"`
 }
 
 type AOut struct {
@@ -122,6 +126,7 @@ type ALine struct {
 	Stamp    string          `json:"stamp,omitempty"`
 	Allowed  bool            `json:"allowed"`
 	Flags    map[string]bool `json:"flags,omitempty"`
+	Mutated  []string        `json:"mutated"` // informer-cache objects the webhooks wrote into
 	L        Label           `json:"l"`
 }
 
@@ -447,6 +452,55 @@ func (a *admWorld) famB(c ACase) ALine {
 	b.Cleared = rj.Spec.ConfigName == ""
 	b.Fin = finClass(rj.Finalizers)
 	b.Label = rj.Labels["team"]
+	line.Mutated = a.w.Inf.JobConfigs.Mutated()
+	return line
+}
+
+// family D: a JobConfig stored without template defaults (e.g. from before the webhook was installed); two admissions by
+// configName with the dynamic-config pending-timeout default changed in between
+func (a *admWorld) famD(c ACase) ALine {
+	line := ALine{Ev: "D"}
+	a.n++
+	name := fmt.Sprintf("jcd%d", a.n)
+	jc := a.jc1.DeepCopy()
+	jc.ObjectMeta = metav1.ObjectMeta{Name: name, Namespace: ns}
+	if _, err := a.w.API.Direct("user", ktesting.NewCreateAction(sw.JobConfigsGVR, ns, jc)); err != nil {
+		line.Err = err.Error()
+		return line
+	}
+	a.w.API.Mutate("jobconfigs", ns, name, func(o runtime.Object) runtime.Object {
+		x := o.(*execution.JobConfig)
+		x.Spec.Template.Spec.TaskPendingTimeoutSeconds = nil
+		x.Spec.Template.Spec.MaxAttempts = nil
+		return x
+	})
+	for a.w.Inf.JobConfigs.Deliver() {
+	}
+	admit := func(i int, pt int) (*AOut, string) {
+		a.setJobCfg(-1, pt)
+		raw, _ := json.Marshal(map[string]interface{}{"apiVersion": "execution.furiko.io/v1alpha1", "kind": "Job",
+			"metadata": map[string]interface{}{"name": fmt.Sprintf("%s-j%d", name, i), "namespace": ns}, "spec": map[string]interface{}{"configName": name}})
+		out, _, err := a.adm.Raw("jobs", "CREATE", nil, raw)
+		if err != nil {
+			return nil, err.Error()
+		}
+		var rj execution.Job
+		_ = json.Unmarshal(out, &rj)
+		return projA(&rj), ""
+	}
+	var e string
+	if line.A, e = admit(1, c.Pt1); e != "" {
+		line.Err = e
+		return line
+	}
+	if line.A2, e = admit(2, c.Pt2); e != "" {
+		line.Err = e
+		return line
+	}
+	line.Mutated = a.w.Inf.JobConfigs.Mutated()
+	_, _ = a.w.API.Direct("user", ktesting.NewDeleteAction(sw.JobConfigsGVR, ns, name))
+	for a.w.Inf.JobConfigs.Deliver() {
+	}
 	return line
 }
 
@@ -668,6 +722,10 @@ func (a *admWorld) famP(c ACase) ALine {
 		jc.Spec.Schedule.Cron.Expressions = append(execution.CronExpressionList{}, c.Exprs...)
 	}
 	jc.Spec.Template.Spec.TaskTemplate.Pod.Spec.Containers = []corev1.Container{{Name: "c", Image: "img"}}
+	if c.Tl == "reserved" {
+		jc.Spec.Template.Labels = map[string]string{"team": "a", jobconfig.LabelKeyJobConfigUID: "00000000-another-jobconfig"}
+		jc.Spec.Template.Annotations = map[string]string{"note": "copied"}
+	}
 	jc.UID = ""
 	_, err := a.w.API.Direct("user", ktesting.NewCreateAction(sw.JobConfigsGVR, ns, jc))
 	line.Flags["accepted"] = err == nil
@@ -763,10 +821,15 @@ func AdmissionMain(args []string) (interface{}, error) {
 			line = a.famU(c)
 		case "P":
 			line = a.famP(c)
+		case "D":
+			line = a.famD(c)
 		default:
 			return nil, fmt.Errorf("unknown family %q", c.Fam)
 		}
 		line.C = append(json.RawMessage{}, sc.Bytes()...)
+		if line.Mutated == nil {
+			line.Mutated = []string{}
+		}
 		line.Run = sum.Cases
 		tr.Emit(line)
 		sum.Cases++
